@@ -128,12 +128,12 @@ def capi_getters():
     for name in HEAP_GETTERS:
         b = body(name)
         if b.startswith(HEAP_FRAME):
-            g = re.fullmatch(r"letbuffer=ctx\.editor\.(\w+)\(\);letcstr=matchCString::new\(buffer\)\{Ok\(cstr\)=>cstr,"
+            g = re.fullmatch(r"let(?P<v>\w+)=ctx\.editor\.(\w+)\(\);letcstr=matchCString::new\((?P=v)\)\{Ok\(cstr\)=>cstr,"
                              r"Err\(_\)=>returnnull_mut\(\),\};owned_into_raw\(Owned::CString,cstr\.into_raw\(\)\)",
                              b[len(HEAP_FRAME):])
             if not g:
                 raise ExtractError(f"{name}: unrecognised body")
-            rows.append((name, g.group(1), "heap_or_null", "", "empty_heap"))
+            rows.append((name, g.group(2), "heap_or_null", "", "empty_heap"))
             continue
         g = re.fullmatch(r"letctx=matchunsafe\{ctx\.as_ref\(\)\}\{Some\(ctx\)=>ctx,None=>return" + re.escape(EMPTY_HEAP) +
                          r",\};letcstring=CString::new\(ctx\.editor\.(\w+)\(\)\)\.unwrap\(\);"
